@@ -39,3 +39,61 @@ Proof.
   destruct (seconds <? 50); [reflexivity|].
   destruct (seconds <? 50 * 60); reflexivity.
 Qed.
+
+(* ---------------- phase 3: absolute formats, format_day, list, get_closest ---------------- *)
+Lemma src_format_choice_eq : forall days same_day relative shorter,
+  match src_format_choice days same_day relative shorter with
+  | Some f => f
+  | None => src_full_format shorter
+  end = template (abs_class days same_day relative) shorter.
+Proof.
+  intros days same_day relative shorter. unfold src_format_choice, src_full_format, abs_class.
+  destruct (days =? 0); [destruct shorter; reflexivity|].
+  destruct ((days =? 1) && same_day && relative); [destruct shorter; reflexivity|].
+  destruct (days <? 5); [destruct shorter; reflexivity|].
+  destruct (days <? 334); destruct shorter; reflexivity.
+Qed.
+
+Lemma src_full_format_eq : forall shorter, src_full_format shorter = template AFull shorter.
+Proof. destruct shorter; reflexivity. Qed.
+
+Lemma src_clock_constants_eq :
+  src_clock_codes = [codes "en"; codes "en_US"; codes "zh_CN"]%string /\
+  src_time_formats = [codes "%d:%02d"; codes "%s%d:%02d"; codes "%d:%02d %s"]%string /\
+  src_zh_ampm = [[19978%N; 21320%N]; [19979%N; 21320%N]] /\
+  src_en_ampm = [codes "am"; codes "pm"]%string.
+Proof. repeat split; reflexivity. Qed.
+
+Lemma src_day_templates_eq : src_day_templates = [day_template true; day_template false].
+Proof. reflexivity. Qed.
+
+Lemma nth_error_last : forall (A : Type) (l : list A) (d : A), l <> [] ->
+  nth_error l (List.length l - 1) = Some (last l d).
+Proof.
+  intros A l d. induction l as [|a l IH]; intro H; [contradiction|].
+  destruct l as [|b l']; [reflexivity|].
+  replace (List.length (a :: b :: l') - 1)%nat with (S (List.length (b :: l') - 1)) by (cbn [List.length]; lia).
+  cbn [nth_error]. rewrite IH by discriminate. reflexivity.
+Qed.
+
+Lemma firstn_removelast : forall (A : Type) (l : list A),
+  firstn (List.length l - 1) l = removelast l.
+Proof.
+  intros A l. induction l as [|a l IH]; [reflexivity|].
+  destruct l as [|b l']; [reflexivity|].
+  replace (List.length (a :: b :: l') - 1)%nat with (S (List.length (b :: l') - 1)) by (cbn [List.length]; lia).
+  cbn [firstn]. rewrite IH. reflexivity.
+Qed.
+
+Lemma src_locale_list_eq : forall fa parts, src_locale_list fa parts = locale_list fa parts.
+Proof.
+  intros fa [|a [|b r]]; [reflexivity | reflexivity |].
+  unfold src_locale_list, locale_list.
+  change (List.length (a :: b :: r) =? 0)%nat with false.
+  change (List.length (a :: b :: r) =? 1)%nat with false. cbv iota zeta.
+  rewrite (nth_error_last _ (a :: b :: r) []) by discriminate. cbn [bind].
+  rewrite firstn_removelast. destruct fa; reflexivity.
+Qed.
+
+Lemma src_list_constants_eq : src_list_prefix = codes "fa"%string /\ src_default_locale = default_locale.
+Proof. split; reflexivity. Qed.
